@@ -21,6 +21,8 @@ def fresh_parser_for(runner_cls: type) -> None:
     """Give each runner kind its own lark parser (the singleton keeps the first tree class:
     sharing one between runner kinds is C05's subject, not that of the other properties).
     Parsers are cached per tree class so the grammar is compiled at most twice per process."""
+    if hasattr(CELParser, "_parsers"):
+        return  # the library keeps one parser per tree class itself
     tc = runner_cls.tree_node_class
     CELParser.CEL_PARSER = _parsers.get(tc)
     if CELParser.CEL_PARSER is None:
